@@ -79,7 +79,8 @@ CHECKS = {
     'C08': dict(
         category='exploration', design_ref='DESIGN.md section 2, C08',
         technique='sanitizer monitoring (ASan+UBSan, MSan, valgrind memcheck, pattern-init differential) plus returned-from-main hook record',
-        text='Hostile inputs (random bytes, mutated/truncated/extended programs, degenerate lines) x command lines '
+        text='Hostile inputs (random bytes, mutated/truncated/extended programs, degenerate lines, thousands of unclosed '
+             'FOR/REPEAT or stray NEXT/UNTIL carried over many lines in both framings) x command lines '
              '(10 dialects or none, LISTO valid/invalid, file/stdin/several/missing files, unknown options, --help, -D) '
              'run on the ASan+UBSan build (signals, reports, status in {0,1}, RET hook record present, diagnostic on '
              'failure), the MemorySanitizer build, the release vs pattern-initialised builds (outputs must agree) '
@@ -126,7 +127,7 @@ CHECKS = {
              'window: FM exactly 30 bytes, MFM one inside 43), sector order, index marks, '
              'per-track length jitter, tightly packed tracks and both LUT length conventions, as HFE v1, HFE v3 with '
              'NOP/SETINDEX/SETBITRATE/SKIPBITS 0-7 inserted anywhere (also a lone SKIPBITS after the last sector of '
-             'every track), and HxC MFM; cat, free, show-titles, info, space, '
+             'every track, and stale sector IDs without a record between the records of a track), and HxC MFM; cat, free, show-titles, info, space, '
              'type --binary, sector-map, dump-sector, extract-files and extract-unused must give the same stdout and '
              'status as on the ssd/sdd/dsd/ddd of the same disc.',
         note='The sector-dump run is the reference (itself checked by C01/C02/C04/C14).  16-spt discs are compared '
@@ -161,7 +162,7 @@ CHECKS = {
         text='Every container type (incl. sector counts where only the file-name hints decide the density, tiny images, '
              'MMB, flux, half-blank two-sided dumps and hostile images) is compared with its gzip copy over levels 0-9, '
              'optional header fields, compressed sizes on/next to multiples of 512/1024/32768 and 2-4 members with '
-             'boundaries on and off the 512-byte input buffer, under paths that hold .gz and image extensions earlier '
+             'boundaries on, off and 1-3 bytes either side of the 512-byte input buffer, under paths that hold .gz and image extensions earlier '
              'on; every command and extract-files must agree.  For small '
              'one- and two-member streams every truncation point and every (third, in quick) single-bit flip is run: '
              'zlib-valid => must equal the decompressed image, otherwise => diagnostic, non-zero status, no output.',
@@ -194,7 +195,7 @@ CHECKS = {
     'C18': dict(
         category='exploration', design_ref='DESIGN.md section 2, C18',
         technique='metamorphic monitor over option insertions, option order, --ui and COLUMNS (pty and file), on the ASan+UBSan build',
-        text='Valid images of every container (incl. Opus multi-volume, flux v1/v3/HxC, MMB, two-sided files with a blank second side) and hostile images x commands: '
+        text='Valid images of every container (incl. Opus multi-volume, flux v1/v3/HxC with stale sector IDs on some tracks, MMB, two-sided files with a blank second side) and hostile images x commands: '
              'repeat, --verbose / --show-config / both at random option positions, --verbose first, reordered --drive/'
              '--dir/--ui must leave stdout and status unchanged; cat under --ui x 13 COLUMNS values on a pty and a file '
              'must report the same entries, locks, cycle, option and drive; other commands must not change with --ui; a '
